@@ -3,7 +3,7 @@ from cfg import Inconclusive, op_place, show, walk, strip_casts
 from common import (atomic_op, calls_to, callee, closure_creations, closure_consumer, field_chain, fn_of,
                     find_fn, get_fn, head_sources, peel, site, guards_of, field_assigns, field_borrows,
                     field_reads, is_diverging, ret_aggregates)
-from common import bool_param, is_arg, spawn_closures
+from common import bool_param, is_arg, spawn_closures, enum_fn_table
 from props.c09 import classify
 from props.c19 import is_worker_field, canon_atom
 
@@ -234,20 +234,15 @@ def rule_stream_switch(ctx):
         else:
             ctx.violation(TICK + "|state-fresh|missing", site(tick, second),
                           "the second tick phase can run without state having been set to Fresh: after a restart no run over the new stream is ever installed into the snapshot")
-    # State::cleared / canceled are `!= Fresh`
+    # State::cleared / canceled: true exactly when the state is not Fresh (decision table over the variants)
     for nm in ("State::cleared", "State::canceled"):
         f = get_fn(ctx.facts, "nucleo", nm)
-        rets = ret_aggregates(f)
-        e = None
-        for bi, t in f.calls(lambda t: str(t.get("fn")).endswith("PartialEq::ne") or str(t.get("fn")).endswith("PartialEq::eq")):
-            other = peel(f.expr_of_operand(t["args"][1]))
-            e = (callee(t), other)
-        if e and str(e[0]).endswith("ne") and e[1][0] == "agg" and e[1][1].endswith("State::Fresh"):
-            ctx.ok(site(f, 0), "%s(self) == (self != Fresh)" % nm)
-        elif e and e[0].endswith("PartialEq>::ne") and e[1][0] == "agg" and e[1][1].endswith("State::Fresh"):
-            ctx.ok(site(f, 0), "%s(self) == (self != Fresh)" % nm)
+        tab = enum_fn_table(ctx.facts, f, "nucleo", "State")
+        want = {v: int(v != "Fresh") for v in tab}
+        if tab == want:
+            ctx.ok(site(f, 0), "%s(self) == (self != Fresh) for every variant: %s" % (nm, tab))
         else:
-            ctx.violation("%s|definition|1" % nm, site(f, 0), "%s is no longer `self != State::Fresh`: %s" % (nm, e))
+            ctx.violation("%s|definition|1" % nm, site(f, 0), "%s is no longer `self != State::Fresh`: %s" % (nm, tab))
 
 
 def worker_fields_mutated(facts):
